@@ -1,6 +1,7 @@
 import Driver.Common
 import Driver.C11
 import Driver.C08
+import Driver.C09
 /-
   Line-protocol driver (DESIGN.md §4.1). For each line
       <component> <args...> => <implementation output>
@@ -16,7 +17,7 @@ import Driver.C08
 -/
 open Lal Drv
 
-def handlers : List Handler := [Drv.C11.handleC11, Drv.C08.handleC08]
+def handlers : List Handler := [Drv.C11.handleC11, Drv.C08.handleC08, Drv.C09.handleC09]
 
 def dispatch (comp : String) (args : List String) (impl : String) : Ans :=
   match handlers.findSome? (fun h => h comp args impl) with
